@@ -1,5 +1,7 @@
 import MlModel.Model.Resume
 import MlModel.Model.ResumeChain
+import MlModel.Model.ResumeSliced
+import MlModel.Lemmas.PipeAggInst
 /-!
 # Counter-examples for C10 (`decide`d instances on the executable model)
 
@@ -10,6 +12,9 @@ import MlModel.Model.ResumeChain
 * `C10_F12_witness`: with producer threads the checkpoint holds the producers' positions; what
   they had taken but not yet delivered is never delivered (open finding F12): 20 elements,
   2 producers, 8 elements lost.
+* `C10_m5_restore_drops_slices_witness`: the seeded regression `C10-m5-restore-drops-slice-states` (restore copies only
+  the keys of `create_state()`): delivered batches and the un-sliced aggregate stay right, the per-slice aggregate of the
+  resumed run is wrong — `C10_pipeline_sliced` is false of it.
 Each is the negation of the C10 statement on one concrete history.
 -/
 namespace MlModel.Witness.C10
@@ -119,5 +124,39 @@ theorem C10_m3_aggstate_witness :
     ChainIt.aggState _ threeStages ⟨top, [2, 1, 0]⟩ = [("a", (6, 3)), ("b", (12, 3)), ("c", (21, 3))] ∧
     ChainIt.aggState _ threeStages ⟨top, [1, 1, 0]⟩ = [("b", (12, 3)), ("b", (12, 3)), ("c", (21, 3))] := by
   decide
+
+/-! ### a sliced aggregation under checkpoint / resume
+
+`PipeAgg.exPipeline` (sum / count of `x` sliced by `a`, by `a` in replace mode and by a restricted cross; mean of `y` with
+slicing disabled) over the three batches of `PipeAgg.exStream`; a checkpoint after the FIRST batch (slice `a = 1` already
+has an entry), a restore, then drained. -/
+
+open MlModel.PipeAgg in
+def slicedEx : SlicedDef Batch (List Val) Stat Rv := ⟨fun b => [b], exPipeline⟩
+
+def slicedHist : List Op := [.take 1, .ckpt, .restore, .take 100]
+
+open MlModel.PipeAgg in
+/-- what a run reports: delivered batch count, the un-sliced entry, the entry of slice `a = 1` -/
+def slicedObs (R : Recoverable Batch) (it : Except ErrKind (SrcRun R)) (agg : R.It → Except ErrKind (State Stat)) :
+    Option (Nat × Option (ROut Rv) × Option (ROut Rv)) :=
+  it.toOption.bind fun r => (agg r.it).toOption.bind fun st => (getResult exPipeline st).toOption.map fun res =>
+    (r.delivered.length, AList.get? res ⟨"o", SliceKey.none⟩, AList.get? res ⟨"o", ⟨["a"], [1]⟩⟩)
+
+open MlModel.PipeAgg in
+theorem C10_m5_restore_drops_slices_witness :
+    -- the code's restore: the uninterrupted values (sum 19 over 3 rows in slice a = 1)
+    slicedObs _ (SrcRun.run (slicedRec (seqRec exStream) slicedEx)
+        (SrcRun.init _ (SlicedIt.fresh _ slicedEx (Src.root 3).iterate none)) slicedHist) SlicedIt.agg
+      = some (3, some (.one (.nums [(26, 1), (4, 1)])), some (.one (.nums [(19, 1), (3, 1)]))) ∧
+    slicedObs _ (SrcRun.run (slicedRec (seqRec exStream) slicedEx)
+        (SrcRun.init _ (SlicedIt.fresh _ slicedEx (Src.root 3).iterate none)) [.take 100]) SlicedIt.agg
+      = some (3, some (.one (.nums [(26, 1), (4, 1)])), some (.one (.nums [(19, 1), (3, 1)]))) ∧
+    -- the regression's restore: same elements, same un-sliced value, slice a = 1 restarts from zero
+    slicedObs _ (SrcRun.run (slicedRecM5 (seqRec exStream) slicedEx)
+        (SrcRun.init (slicedRecM5 (seqRec exStream) slicedEx) (SlicedIt.fresh _ slicedEx (Src.root 3).iterate none))
+        slicedHist) SlicedIt.agg
+      = some (3, some (.one (.nums [(26, 1), (4, 1)])), some (.one (.nums [(8, 1), (1, 1)]))) := by
+  refine ⟨by decide, by decide, by decide⟩
 
 end MlModel.Witness.C10
